@@ -263,6 +263,10 @@ class C16(Prop):
                     for s in range(1, 13):
                         px = [rng.randint(0, 255) for _ in range(w * h)]
                         out.append(f"D {w} {s} {hexb(px)}")
+        # an empty image is a multiple of ANY width: widths up to the top of the usize range (the row arithmetic must not overflow)
+        for w in (1 << 60, (1 << 61) - 1, 1 << 61, (1 << 61) + 1, 1 << 62, 1 << 63, (1 << 64) - 1, (1 << 32) + 1, 1 << 32):
+            for s in (1, 7, 12):
+                out.append(f"D {w} {s} {hexb([])}")
         return out
 
     def compare(self, case, impl, other):
